@@ -306,7 +306,7 @@ func norm(v ssa.Value, depth int, seen map[ssa.Value]bool) string {
 	d := depth + 1
 	switch x := v.(type) {
 	case *ssa.Parameter:
-		return "p:" + x.Name()
+		return "p:" + CanonParam(x)
 	case *ssa.FreeVar:
 		if r := cellRoot(x); r != ssa.Value(x) {
 			return norm(r, d, seen)
@@ -768,3 +768,23 @@ func FieldOf(v ssa.Value, typ, field string) (ssa.Value, bool) {
 
 // FieldName exposes fieldName.
 func FieldName(t types.Type, idx int) string { return fieldName(t, idx) }
+
+// CanonParam returns the name under which rules refer to a parameter: the
+// frozen name for its position if the function is in the table, else its
+// current name. Renaming a parameter therefore changes no normalised string.
+func CanonParam(x *ssa.Parameter) string {
+	fn := x.Parent()
+	if fn == nil {
+		return x.Name()
+	}
+	names, ok := frozenParamNames[ShortName(fn)]
+	if !ok {
+		return x.Name()
+	}
+	for i, q := range fn.Params {
+		if q == x && i < len(names) {
+			return names[i]
+		}
+	}
+	return x.Name()
+}
